@@ -9,6 +9,9 @@ CALLBACKS = ["exitDeclarename", "exitVersion", "exitTarget", "exitDeclaretype", 
              "exitStatement", "enterForloop", "exitForloop", "enterProgram", "exitProgram"]
 
 
+PAUSED = False
+
+
 @contextmanager
 def recording():
     """context manager yielding the list that receives the events of every load inside it"""
@@ -28,6 +31,8 @@ def recording():
 
         @functools.wraps(orig)
         def w(self, *a, **k):
+            if PAUSED:          # loads of the hostile history (realrun.hostile_history) are not part of the recorded load
+                return orig(self, *a, **k)
             d = depth_of(self)
             if name == "exitInclude":
                 events.append(dict(ev="enterInclude", depth=d, nops=len(self._program._operations), in_for=bool(getattr(self, "_in_for", False)),
